@@ -299,7 +299,7 @@ func (fr *Frame) checkExit(st *State, fc *FuncContract, entryLocks map[string]st
 	// frame
 	fr.checkFrame(st, fc, nret)
 	// canary: `ensures false` must not be provable on this path
-	e.obls = append(e.obls, &Obligation{Fn: shortKey(fi.Key), Kind: "canary", Key: shortKey(fi.Key) + "/canary", Name: fmt.Sprintf("%s/canary@%d", shortKey(fi.Key), nret),
+	e.obls = append(e.obls, &Obligation{Fn: shortKey(fi.Key), Kind: "canary", Key: shortKey(fi.Key) + "/canary", Name: fmt.Sprintf("%s/canary:ret#%d@%d", shortKey(fi.Key), st.retOrd, nret),
 		Props: fc.Props, Hyps: append([]*Term(nil), st.path...), Goal: False, ExpectSat: true, Descr: "`ensures false` must be refuted (path is feasible)"})
 }
 
